@@ -1535,6 +1535,11 @@ def _pd_setdefault(it, d, key, default=None):
         r = values_equal(it, k, key)
         if r is True or (r is not False and it.branch(r)):
             return v
+    if getattr(d, 'history', None) is not None and it.decide(2, lambda i: True) == 0:
+        v = it.uncell(it.fresh('hist_entry', Cell))
+        d.d[key] = v
+        it.path.info['needs_invariant'] = 'a dict filled by earlier calls was read and had the key'
+        return v
     d.d[key] = default
     return default
 
